@@ -40,7 +40,7 @@ func Spec_ContainsByIdentity(slice *[]Identifiable, value *string) bool {
 
 func Spec_ContainsAll(slice *[]Identifiable, values *[]string) bool {
 	for _, v := range *values {
-		if !ContainsByIdentity(slice, &v) {
+		if !Spec_ContainsByIdentity(slice, &v) {
 			return false
 		}
 	}
